@@ -1026,6 +1026,8 @@ class GK(G):
                                          ("implicit", ("prop", ("var", "o"), "f2"))]),
             ("fn", "site5", ["o"], [("let", "b", ("prop", ("var", "o"), "m3")), ("implicit", ("call", ("var", "b"), []))]),
             ("fn", "call0", ["f"], [("implicit", ("call", ("var", "f"), []))]),
+            # m3 called in one expression (a fused invoke; site5 reads the property first and calls it afterwards)
+            ("fn", "site8", ["o"], [("implicit", ("call", ("prop", ("var", "o"), "m3"), []))]),
             # the value of an assignment expression is the assigned value, on the first execution and on every later one
             ("fn", "site6", ["o", "v"], [("return", ("assign", ("prop", ("var", "o"), "f2"), ("var", "v")))]),
             ("fn", "site7", ["o", "p", "v"], [("return", ("assign", ("prop", ("var", "o"), "f1"), ("assign", ("prop", ("var", "p"), "f1"), ("var", "v"))))]),
@@ -1201,6 +1203,16 @@ class GI(GK):
                     out.append(("print", ("call", ("var", "site4"), [("var", ov), self.expr("num", 1)])))
                 else:
                     out.append(("print", ("call", ("var", "site5"), [("var", ov)])))
+            if ov2:
+                # both instances, one after the other, at the zero argument call sites (m1 is a method, m3 a callable
+                # field of its own per instance in one of the layouts)
+                for o_ in (first, ov2, first):
+                    out.append(("print", ("call", ("var", "site8"), [("var", o_)])))
+                    if self.chance(30):
+                        out.append(("print", ("call", ("var", "site5"), [("var", o_)])))
+                if self.chance(50):
+                    for o_ in (ov2, first):
+                        out.append(("print", ("call", ("var", "site1"), [("var", o_)])))
             # drop the class and its instance, make garbage so a collection can reuse the addresses
             out.append(("expr", ("assign", ("var", cv), ("nil",))))
             out.append(("expr", ("assign", ("var", first), ("nil",))))
@@ -2638,6 +2650,9 @@ class GA(G):
                     if k > 0:
                         body.append(("expr", ("call", ("prop", via, "push"), [("num", float(self.i(0, 9))) for _ in range(k)])))
                         o["len"], o["cap"] = ln, cap
+                        if g and self.chance(45) and len(o["aliases"]) < 7:
+                            # an alias taken right after the list moved, from whatever handle the drawn place holds
+                            body.extend(add_alias(o, True))
                     else:
                         body.append(("expr", ("call", ("prop", via, "pop"), [])))
                         o["len"] = max(0, o["len"] - 1)
@@ -2668,6 +2683,8 @@ class GA(G):
                     else:
                         body.append(("expr", ("call", ("prop", via, "insert"), [("num", 0.0), ("num", 5.0)])))
                         o["len"], o["cap"] = ln, cap
+                        if g and self.chance(45) and len(o["aliases"]) < 7:
+                            body.extend(add_alias(o, True))
                 elif c < 9:
                     body.append(("expr", ("call", ("prop", via, "pop"), [])))
                     o["len"] = max(0, o["len"] - 1)
